@@ -236,6 +236,18 @@ CLAIMED["C18"] = dict(
     technique="TLA+ wire-format model + TLC model checking; result validation by TLC",
 )
 
+CLAIMED["C20"] = dict(
+    category="model_checking",
+    text="Series.tla (truncated multivariate integer series: add, multiply, power, substitution of monomials into a class's true "
+         "series) evaluates every equation of every campaign specification - exported as the AST of the numerator of lhs - rhs - "
+         "with each class function replaced by the TLA+-defined true series in x and the statistics; it must vanish up to order N. "
+         "A returned closed form, normalised to P/Q over Z[x], must satisfy Q*C = P up to an order M beyond which equality is "
+         "forced by a degree argument (C = dynamic-programming counts of WordUniverse.tla), i.e. at every order.",
+    design_ref="DESIGN.md 3/C20",
+    note="Trusted: TLC; sympy's together/expand/cancel for translating expressions (the identities themselves are evaluated by TLC).",
+    technique="TLA+ series algebra over the ground-truth specification; result validation by TLC",
+)
+
 NOT_YET = {}
 
 ALL = ["C%02d" % i for i in range(1, 21)]
